@@ -44,6 +44,8 @@ def gen_pred_case(rng, model=None, regime=None, kmax=8, pmax=8):
                   for j in range(n)] for i in range(k)]
         regime = "vanishing_sigma"
     case = dict(model=model, cfg=cfg, teams=teams, sel=None, vals=None, call={})
+    if rng.random() < 0.05:
+        case["names"] = rng.choice(["same", "none"])
     if rng.random() < 0.1:
         case["ids"] = "shared"  # distinct objects carrying the same id string (deepcopy clones keep the id)
     if rng.random() < 0.06:
